@@ -250,8 +250,14 @@ message Tail {
 	}
 	sort.Strings(refs)
 	var sb strings.Builder
-	sb.WriteString("syntax = \"proto3\";\npackage test.zzwide.v1;\nimport \"test/schema/v1/full_schema.proto\";\nimport \"test/foo/v1/foo.proto\";\n\n")
+	sb.WriteString("syntax = \"proto3\";\npackage test.zzwide.v1;\nimport \"test/schema/v1/full_schema.proto\";\nimport \"test/foo/v1/foo.proto\";\nimport \"buf/validate/validate.proto\";\n\n")
 	sb.WriteString("enum Colour {\n  RED = 0;\n  GREEN = 1;\n}\n\n")
+	// a build that PANICS (today: a bool field with a const rule dereferences nil rules in
+	// lib/j5schema.buildScalarType), nested and at the top: a caller that recovers must find the
+	// shared cache as it was
+	sb.WriteString("message PanicInner {\n  string name = 1;\n  bool flag = 2 [(buf.validate.field).bool.const = true];\n}\n\n")
+	sb.WriteString("message PanicOuter {\n  string title = 1;\n  .test.schema.v1.Bar bar = 2;\n  PanicInner inner = 3;\n  .test.foo.v1.Bar after = 4;\n}\n\n")
+	sb.WriteString("message PanicOuter2 {\n  PanicInner inner = 1;\n  string t = 2;\n}\n\n")
 	per := 5
 	n := 0
 	for i := 0; i*per < len(refs) && i < 8; i++ {
